@@ -392,11 +392,11 @@ func (g *Gen) heapWF(name, key, top string) {
 	var body, binds, pat string
 	switch key[0] {
 	case 'F', 'S':
-		body = g.allocatedIn(sx("select", name, "r"), t, top, 0)
+		body = and(g.allocatedIn(sx("select", name, "r"), t, top, 0), g.wf(sx("select", name, "r"), t))
 		binds = "(r Int)"
 		pat = sx("select", name, "r")
 	case 'A':
-		body = g.allocatedIn(sx("select", sx("select", name, "r"), "i"), t, top, 0)
+		body = and(g.allocatedIn(sx("select", sx("select", name, "r"), "i"), t, top, 0), g.wf(sx("select", sx("select", name, "r"), "i"), t))
 		binds = fmt.Sprintf("(r Int) (i %s)", g.idxSort())
 		pat = sx("select", sx("select", name, "r"), "i")
 	default:
@@ -1473,7 +1473,7 @@ func (g *Gen) bytesToStr(st *State, sl string) string {
 	if !g.sc.has("b2s") {
 		g.sc.add([]string{"b2s"}, fmt.Sprintf("(declare-fun b2s ((Array %s %s) %s %s) Str)", ix, bs, ix, ix))
 		z := g.idxLit(0)
-		g.sc.addAxiom([]string{"b2s"}, fmt.Sprintf("(assert (forall ((a (Array %s %s)) (o %s) (n %s)) (! (=> %s (= (len (b2s a o n)) n)) :pattern ((b2s a o n)))))", ix, bs, ix, ix, g.cmp(token.LEQ, z, "n", intT)))
+		g.sc.addAxiom([]string{"b2s"}, fmt.Sprintf("(assert (forall ((a (Array %s %s)) (o %s) (n %s)) (! (=> (and %s %s) (= (len (b2s a o n)) n)) :pattern ((b2s a o n)))))", ix, bs, ix, ix, g.cmp(token.LEQ, z, "n", intT), g.cmp(token.LEQ, "n", g.idxLit(1<<maxLenBits), intT)))
 		g.sc.addAxiom([]string{"b2s", "at"}, fmt.Sprintf("(assert (forall ((a (Array %s %s)) (o %s) (n %s) (i %s)) (! (=> (and %s %s) (= (at (b2s a o n) i) (select a %s))) :pattern ((at (b2s a o n) i)))))",
 			ix, bs, ix, ix, ix, g.cmp(token.LEQ, z, "i", intT), g.cmp(token.LSS, "i", "n", intT), g.arith(token.ADD, "o", "i", intT)))
 	}
@@ -1491,6 +1491,11 @@ func (g *Gen) strToBytes(st *State, s string) string {
 		z := g.idxLit(0)
 		g.sc.addAxiom([]string{"s2b"}, fmt.Sprintf("(assert (forall ((s Str) (i %s)) (! (=> (and %s %s) (= (select (s2b s) i) (at s i))) :pattern ((select (s2b s) i)))))",
 			ix, g.cmp(token.LEQ, z, "i", intT), g.cmp(token.LSS, "i", "(len s)", intT)))
+	}
+	g.bytesToStr(st, sx("mk_slice", "0", g.idxLit(0), g.idxLit(0), g.idxLit(0))) // declares b2s
+	if !g.sc.has("ax_b2s_s2b") {
+		g.sc.add([]string{"ax_b2s_s2b"}, "(define-fun ax_b2s_s2b () Bool true)")
+		g.sc.addAxiom([]string{"s2b", "b2s"}, fmt.Sprintf("(assert (forall ((s Str)) (! (= (b2s (s2b s) %s (len s)) s) :pattern ((s2b s)))))", g.idxLit(0)))
 	}
 	r := g.allocRef(st, "s2b")
 	k, srt := g.elemKey(byteT)
